@@ -1648,6 +1648,14 @@ pub fn gen_quit(rng: &mut Rng) -> E2Scn {
         s.jobs.push(JobPlan { at_batch: 1, grouped: rng.chance(1, 2), session: false, children: vec![child], ops: vec![Op::Start], later: vec![], hold_clone: rng.chance(2, 3), fixed_id: Some(0) });
         quit_batch = quit_batch.max(2);
     }
+    // "wait for ever" (Duration::MAX) as the quit's grace period, when every process obeys the signal anyway
+    let mut graceful = graceful;
+    if let Some((sig, _)) = graceful {
+        let all_obey = s.jobs.iter().all(|j| j.children.iter().all(|c| matches!(c.on_signal, SigReact::Exit(_)))) && sig != 9;
+        if all_obey && rng.chance(1, 6) {
+            graceful = Some((sig, u64::MAX));
+        }
+    }
     s.quit = Some(QuitPlan { at_batch: quit_batch, graceful });
     // events that produce batches 0..=quit_batch, spaced so that jobs are caught at different points
     let mut steps = Vec::new();
@@ -1709,7 +1717,7 @@ pub fn oracle_c08(scn: &E2Scn, d: &D2, out: &RunOut, stats: &mut Stats) -> Vec<V
                     // armed if its signal was delivered to a child still alive at q
                     for c in &kids {
                         if let Some(sg) = c.signals.iter().find(|s| s.2 == 3 && s.3) {
-                            let deadline = sg.0 + grace;
+                            let deadline = sg.0.saturating_add(*grace);
                             if deadline > q.0 && c.exit.map(|e| e.0 > q.0).unwrap_or(true) {
                                 rem = rem.max(deadline - q.0);
                                 stats.hit("probe:quit-with-armed-timer");
@@ -1741,7 +1749,10 @@ pub fn oracle_c08(scn: &E2Scn, d: &D2, out: &RunOut, stats: &mut Stats) -> Vec<V
                     }
                 }
                 Some((_, grace)) => {
-                    let bound = qbatch_end + remaining_max + grace + 2;
+                    if grace == u64::MAX {
+                        stats.hit("probe:quit-with-unbounded-grace");
+                    }
+                    let bound = qbatch_end.saturating_add(remaining_max).saturating_add(grace).saturating_add(2);
                     if *mt > bound {
                         vs.push(Violation::new(
                             "graceful-quit-late",
